@@ -218,6 +218,66 @@ def run(ctx):
             # no connected-test in front of the mark: that is the gate
             # rule's (C04.R2) violation, nothing to measure here
             ctx.info(construct + ': no test/mark pair for C20.R5')
+    ctx.rule('C20.R6', 'the lookups made before the connected-test '
+             '(sid_from_eio_sid, is_connected) tolerate a client that '
+             'another thread is half-way through removing: every index into '
+             'rooms is guarded at its own level or sits in a try that '
+             'catches KeyError', floor=2)
+    for fname in ('sid_from_eio_sid', 'is_connected'):
+        f = m.method('BaseManager', fname)
+        construct = 'BaseManager.' + fname
+        parent = {}
+        for node in ast.walk(f.node):
+            for ch in ast.iter_child_nodes(node):
+                parent[ch] = node
+        k6 = 0
+        for node in walk_own(f.node):
+            if not (isinstance(node, ast.Subscript) and
+                    isinstance(node.ctx, ast.Load) and
+                    U(node).startswith('self.rooms[')):
+                continue
+            # only maximal chains
+            if isinstance(parent.get(node), ast.Subscript) and \
+                    parent[node].value is node:
+                continue
+            k6 += 1
+            in_try = False
+            x = node
+            while x in parent:
+                pr = parent[x]
+                if isinstance(pr, ast.Try) and any(
+                        x is b or any(x is y for y in ast.walk(b))
+                        for b in pr.body):
+                    for h in pr.handlers:
+                        if h.type is None or any(
+                                nm in U(h.type) for nm in (
+                                    'KeyError', 'LookupError', 'Exception')):
+                            in_try = True
+                x = pr
+            # level-by-level guards: `k in self.rooms`, `k2 in self.rooms[k]`
+            levels = []
+            y = node
+            while isinstance(y, ast.Subscript):
+                levels.append((U(y.value), U(y.slice)))
+                y = y.value
+            guarded = True
+            conds = [U(c) for c in ast.walk(f.node)
+                     if isinstance(c, ast.Compare) and
+                     isinstance(c.ops[0], ast.In)]
+            for base, key in levels:
+                if '%s in %s' % (key, base) not in conds:
+                    guarded = False
+            ctx.check(in_try or guarded, construct, 'index %s is guarded or '
+                      'its KeyError caught' % U(node)[:50], key='raising-'
+                      'lookup', reason='%s indexes %s without a guard for '
+                      'every level and outside a try/except KeyError: while '
+                      'another thread is removing the last client of the '
+                      'namespace (rooms[ns] exists, rooms[ns][None] is '
+                      'already gone) the thread that only wanted to test '
+                      '"is it still connected?" raises' % (
+                          fname, U(node)[:50]), where=where(f, node))
+        if not k6:
+            ctx.info(construct + ': no rooms index found')
     ctx.rule('C20.R4', 'whoever marks the client runs the disconnect handler: '
              'every path with a pre_disconnect mark triggers the '
              '\'disconnect\' event exactly once after it, whatever it '
